@@ -53,7 +53,7 @@ TIER_CAPS = {
     # same address-space cap as quick: with a 24 GiB cap the *same* goto program of c12_capacity
     # came out of `cargo kani` with three loops unfolded (1345 instead of 1342 checks) in some
     # environments and then failed spuriously on pointer checks; cause not found (DESIGN.md 5)
-    "thorough": dict(timeout=3600, mem_kib=20 * 1024 * 1024, jobs=8),
+    "thorough": dict(timeout=3600, mem_kib=24 * 1024 * 1024, jobs=6),
     # counterexample extraction: kani-driver loads CBMC's whole JSON trace into memory
     "playback": dict(timeout=3600, mem_kib=44 * 1024 * 1024, jobs=4),
 }
